@@ -298,7 +298,7 @@ def plan(pid, tier):
                         + sweep_jobs('h_codec', 'c01_xor_sweep', 2 if q else 4) + sweep_jobs('h_codec', 'c01_rs_sweep', 1)
                         + sweep_jobs('h_codec', 'c01_isa_sweep', 1) + sweep_jobs('h_codec', 'c01_large', 3) + sweep_jobs('h_codec', 'c01_mt', 2))
     P['C02'] = lambda: (rc_jobs('h_codec', 'c02', 10, 800 if q else 30000) + sweep_jobs('h_codec', 'c02_subsets', 4 if q else 8)
-                        + sweep_jobs('h_codec', 'c02_band', 2 if q else 6) + sweep_jobs('h_codec', 'c02_large', 3))
+                        + sweep_jobs('h_codec', 'c02_band', 2 if q else 6) + sweep_jobs('h_codec', 'c02_large', 3) + sweep_jobs('h_codec', 'c02_allocfail', 1))
     P['C03'] = lambda: (rc_jobs('h_codec', 'c03', 12, 3000 if q else 40000) + sweep_jobs('h_codec', 'c03_xor_sweep', 3 if q else 12)
                         + sweep_jobs('h_codec', 'c03_rs_sweep', 1) + sweep_jobs('h_codec', 'c03_large', 3))
     P['C04'] = lambda: (sweep_jobs('h_format', 'selftest', 1) + sweep_jobs('h_format', 'c04_matrix', 12) + rc_jobs('h_format', 'c04_parity', 4, 2500 if q else 30000) + sweep_jobs('h_format', 'c04_blocking', 4 if q else 8)
@@ -306,7 +306,8 @@ def plan(pid, tier):
     P['C05'] = lambda: (sweep_jobs('h_format', 'selftest', 1) + sweep_jobs('h_format', 'c05_tables', 1) + sweep_jobs('h_format', 'c05_encode', 2) + sweep_jobs('h_format', 'c05_encode', 1, variant='asan-nosse')
                         + sweep_jobs('h_format', 'c05_unsupported', 1)
                         + sweep_jobs('h_codec', 'c05_decode_sweep', 6 if q else 8) + sweep_jobs('h_codec', 'c05_decode_sweep', 4 if q else 8, variant='asan-nosse') + sweep_jobs('h_codec', 'c05_mt', 2 if q else 4)
-                        + sweep_jobs('h_codec', 'c05_large', 4) + sweep_jobs('h_codec', 'c05_large', 2, variant='asan-nosse'))
+                        + sweep_jobs('h_codec', 'c05_large', 4) + sweep_jobs('h_codec', 'c05_large', 2, variant='asan-nosse')
+                        + sweep_jobs('h_codec', 'c05_allocfail', 2) + sweep_jobs('h_codec', 'c05_allocfail', 1, variant='asan-nosse'))
     P['C07'] = lambda: (sweep_jobs('h_format', 'selftest', 1) + rc_jobs('h_format', 'c07', 12, 6000 if q else 60000) + sweep_jobs('h_format', 'c07_sweep', 4))
     P['C08'] = lambda: (rc_jobs('h_format', 'c08', 10, 8000 if q else 80000) + sweep_jobs('h_format', 'c08_sweep', 6) + sweep_jobs('h_sched', 'c08_sched', 4))
     P['C06'] = lambda: (rc_jobs('h_needed', 'c06', 8, 6000 if q else 80000) + sweep_jobs('h_needed', 'c06_xor_sweep', 4) + sweep_jobs('h_needed', 'c06_rs_sweep', 4 if q else 12))
@@ -332,10 +333,10 @@ def plan(pid, tier):
 
 RULES = {
     'C01': 'rapidcheck-generated (backend, shape, w, checksum type, length, content, erasure set within tolerance, permutation, duplicates, per-buffer alignment, force flag) plus sweeps (all 38 XOR tables x all erasure sets below hd; every RS/ISA-L shape once with |E|=m; MiB-sized payloads; ten shapes decoded and rebuilt by two threads while two others create and destroy instances of the same shape). Non-trivial: at least one DATA fragment erased and content not constant. Distinct: 64-bit hash of the canonical case text.',
-    'C02': 'rapidcheck-generated sub-multisets of one stripe incl. beyond tolerance, with decode and reconstruct; sweeps: all 2^n subsets of small codes, all flat-XOR erasure sets of size hd..hd+1 (quick) / hd..m+1 (thorough). Non-trivial: set outside tolerance or unrecoverable by the rank oracle.',
+    'C02': '(also: for RS / ISA-L shapes, decode and rebuild with each aligned allocation made during the call failing in turn - rc <= 0, and 0 only with exact bytes) rapidcheck-generated sub-multisets of one stripe incl. beyond tolerance, with decode and reconstruct; sweeps: all 2^n subsets of small codes, all flat-XOR erasure sets of size hd..hd+1 (quick) / hd..m+1 (thorough). Non-trivial: set outside tolerance or unrecoverable by the rank oracle.',
     'C03': 'rapidcheck-generated (configuration, data, erasure set within tolerance, destinations lost/present/out of range) plus sweeps (XOR all |E|<hd x lost destinations; RS every shape |E|=m). Non-trivial: >=2 lost and destination lost, or XOR with >=2 lost.',
     'C04': 'enumerated: all 496 shapes k>=1,m>=1,k+m<=32 - make_systematic_matrix(k,m) entry by entry against L_j(r)/L_j(k) over an independent GF(2^16) (0x1100b), then k-subsets of the library matrix rows inverted (exhaustive up to n=12 quick / n=16 thorough, random subsets above); generated: (k,m,block size,content) -> parity payload bytes from liberasurecode_encode vs closed form on host-order 16-bit words, first parity == XOR of data; the same comparison with 2-6 threads encoding different data at once through own or shared instances (payloads mostly above 1 KiB); one generated case in five plus an enumerated sweep put the fragment payload on a cache-blocking boundary ((2^a / streams) rounded down to 16 or 64 bytes, times 1..3; streams in 1, 2, k, k+1, m, k+m; up to 2 MiB of data). Non-trivial: k>=2 (matrix) / k>=2 and two distinct non-zero words (parity).',
-    'C05': 'enumerated: 38 tables x (library bitmaps vs golden equations in both directions, minimum distance by GF(2) rank over all erasure sets <= hd, encode with one non-zero data fragment at a time and with random data for payload sizes 4..4100, every erasure set below hd decoded and reconstructed, SSE2 and portable builds), and every (k,m,hd) in 0..33 x 0..8 x 0..7 outside the 38 refused; per table a multi-threaded run (2 decoders with 2..hd-1 erasures on one instance while 2 threads create and destroy instances of the same shape); fragment payloads around powers of two from 64 KiB to 2 MiB (4 MiB thorough) with a data fragment lost, both build flavours. Non-trivial: >=2 erasures or a parity rebuilt (decode sweep); every table/encode case.',
+    'C05': 'enumerated: 38 tables x (library bitmaps vs golden equations in both directions, minimum distance by GF(2) rank over all erasure sets <= hd, encode with one non-zero data fragment at a time and with random data for payload sizes 4..4100, every erasure set below hd decoded and reconstructed, SSE2 and portable builds), and every (k,m,hd) in 0..33 x 0..8 x 0..7 outside the 38 refused; per table a multi-threaded run (2 decoders with 2..hd-1 erasures on one instance while 2 threads create and destroy instances of the same shape); fragment payloads around powers of two from 64 KiB to 2 MiB (4 MiB thorough) with a data fragment lost, both build flavours; the decode sweep alternates heap inputs and read-only guarded inputs; fault dimension: per table up to four two-parity-path triples plus two other sets, decode and every rebuild, with each aligned allocation (posix_memalign) made during the call failing in turn - the call must return a negative code (never a positive one, never 0 with wrong bytes) and the next call must be exact. Non-trivial: >=2 erasures or a parity rebuilt (decode sweep); every table/encode case.',
     'C07': 'rapidcheck-generated (backend incl. null, shape, w, checksum type incl. MD5, legacy-CRC env, length, content) + one case per shape per backend: every byte of every fragment vs an independent serializer (literal offsets, independent GF and CRC models). Non-trivial: CRC32, length not a multiple of k*wordsize, non-constant data.',
     'C08': 'rapidcheck-generated (backend incl. null, shape, length to 2^20) + dense sweep of all lengths 0..4*k*ws+2 for 40+ configurations: the three size queries vs arithmetic and vs what encode produced; dead/never-issued/negative descriptors refused - also at every instant of a concurrent create/use/destroy (controlled scheduler, all schedules with <= 2 preemptions: a second thread queries descriptors 0, negatives and the top of the range). Non-trivial: length not a multiple of k*wordsize (queries) / at least one context switch inside the library (schedules).',
     'C06': 'enumerated: all 38 flat-XOR tables x all disjoint (R non-empty, X) with |R|+|X|<hd in both list orders; RS n<=8 (quick) / n<=12 (thorough) and ISA-L n<=6/10 x all (R,X) with |R|+|X|<=m; rapidcheck-generated pairs for larger shapes incl. beyond tolerance. Oracle on the returned list (n-int output buffer behind an ASan red zone): termination, range, distinctness, disjointness, sufficiency (RS/ISA: exactly k and reconstruct from only those fragments reproduces each requested fragment; XOR: GF(2) span + XOR of the actual payloads). Beyond tolerance: error or a list passing the same test. Non-trivial: X hits the unconstrained answer, or |R|>=2.',
@@ -479,7 +480,7 @@ MODE_HARNESS['c18_sched_exhaustive'] = ('h_sched', 'asan')
 MODE_HARNESS['c08_sched'] = ('h_sched', 'asan')
 for _m in ['c07', 'c07_sweep', 'c08', 'c08_sweep', 'c04_matrix', 'c04_parity', 'c04_parity_mt', 'c04_blocking', 'selftest', 'c05_tables', 'c05_encode', 'c05_unsupported']:
     MODE_HARNESS[_m] = ('h_format', 'asan')
-for _m in ['c01_large', 'c02_large', 'c03_large', 'c05_large', 'c05_mt', 'c01_mt', 'c19', 'c19_sweep', 'c19_inv', 'c19_singular', 'c05_decode_sweep', 'c01', 'c01_xor_sweep', 'c01_rs_sweep', 'c01_isa_sweep', 'c02', 'c02_subsets', 'c02_band', 'c03', 'c03_xor_sweep', 'c03_rs_sweep', 'c20']:
+for _m in ['c01_large', 'c02_large', 'c03_large', 'c05_large', 'c05_allocfail', 'c02_allocfail', 'c05_mt', 'c01_mt', 'c19', 'c19_sweep', 'c19_inv', 'c19_singular', 'c05_decode_sweep', 'c01', 'c01_xor_sweep', 'c01_rs_sweep', 'c01_isa_sweep', 'c02', 'c02_subsets', 'c02_band', 'c03', 'c03_xor_sweep', 'c03_rs_sweep', 'c20']:
     MODE_HARNESS[_m] = ('h_codec', 'asan')
 
 
